@@ -344,6 +344,28 @@ class World:
             ctx.rounding = rdec.choice([_decimal.ROUND_HALF_EVEN, _decimal.ROUND_UP, _decimal.ROUND_DOWN, _decimal.ROUND_HALF_UP, _decimal.ROUND_FLOOR])
             self.stats["decimal_context_unusual"] = 1
             self.stats[f"decimal_prec_{ctx.prec}"] = 1
+        # the process's time zone and the library logger's level are ambient configuration too. A third of the runs get
+        # a zone with daylight saving (POSIX TZ strings: no zoneinfo data needed) or a fixed offset, a fifth run with the
+        # library's logger at DEBUG (handlers swallow the output)
+        import logging as _logging
+        import time as _time
+
+        renv = substream(self.seed, "ambient")
+        self._tz_saved = os.environ.get("TZ")
+        if renv.random() < 0.35:
+            tz = renv.choice(["EST5EDT,M3.2.0,M11.1.0", "GMT0BST,M3.5.0/1,M10.5.0", "CET-1CEST,M3.5.0,M10.5.0/3", "AEST-10AEDT,M10.1.0,M4.1.0/3",
+                              "<+0545>-5:45", "<-11>11", "UTC0"])
+            os.environ["TZ"] = tz
+            _time.tzset()
+            self.stats["tz_unusual"] = 1
+        self._log_saved = None
+        if renv.random() < 0.2:
+            lg = _logging.getLogger("numbers_parser")
+            self._log_saved = (lg.level, list(lg.handlers), lg.propagate)
+            lg.setLevel(_logging.DEBUG)
+            lg.addHandler(_logging.NullHandler())
+            lg.propagate = False
+            self.stats["logger_debug"] = 1
         # temporary-file names (tempfile.mkdtemp / mkstemp) come from a seeded sequence too: the library does not
         # use them today, a changed one might, and a name decides where an entry sorts in a directory listing
         import random as _random
@@ -381,6 +403,21 @@ class World:
         zipfile.time = _REAL_ZIP_TIME
         _uuid.uuid1 = _REAL_UUID1
         _uuid.uuid4 = _REAL_UUID4
+        if hasattr(self, "_tz_saved"):
+            import time as _time
+
+            if self._tz_saved is None:
+                os.environ.pop("TZ", None)
+            else:
+                os.environ["TZ"] = self._tz_saved
+            _time.tzset()
+        if getattr(self, "_log_saved", None) is not None:
+            import logging as _logging
+
+            lg = _logging.getLogger("numbers_parser")
+            lg.setLevel(self._log_saved[0])
+            lg.handlers[:] = self._log_saved[1]
+            lg.propagate = self._log_saved[2]
         if hasattr(self, "_decimal_saved"):
             import decimal as _decimal
 
